@@ -910,8 +910,13 @@ def gen_action(r, h, mode, timed):
         pending = sorted(set(m["deadlines"]))
         if len(pending) >= 2 and y < 25:
             return ("stall", r.range(2, 3))          # two or more deadlines found expired by ONE scan
-        if len(h.dbs) > 1 and y >= 90:
-            ci_ = r.choice(free)
+        moved = [c_ for c_ in free if h.last_wait_db.get(c_) is not None and h.last_wait_db[c_] != h.cur_db[c_]]
+        if moved and y < 60:
+            # a client that blocked in one database, was answered, selected another one: it blocks again, on the same key names
+            return ("send", r.choice(moved), [("bpop", op(), r.choice([[0], [1], [0, 1], [1, 0, 1]]), tmo())])
+        if len(h.dbs) > 1 and y >= 82:
+            answered = [c_ for c_ in free if h.last_wait_db.get(c_) == h.cur_db[c_]]
+            ci_ = r.choice(answered or free)
             return ("select", ci_, (h.cur_db[ci_] + 1) % len(h.dbs))
     if not free:
         if m["deadlines"]:
